@@ -193,7 +193,7 @@ def run(ctx):
     else:
         rng = random.Random(ctx.seed)
         scripts = [{"case": i + 1, "services": s, "ops": ops, "origin": "fixed"} for i, (s, ops) in enumerate(FIXED)]
-        for _ in range(ctx.pick(100, 5000)):
+        for _ in range(ctx.pick(100, 2000)):
             s, ops = random_script(rng)
             scripts.append({"case": len(scripts) + 1, "services": s, "ops": ops, "origin": "random"})
 
